@@ -55,7 +55,7 @@ def blocks(tier):
         return spaces.v4_blocks("thorough", "short") + spaces.v4_blocks("quick", "override") + \
             spaces.v4_xmod_blocks(("mid", "mid"))
     return spaces.v4_blocks("quick", "short", ("mid", "mid")) + \
-        spaces.v4_blocks("quick", "override", ("min", "min")) + spaces.v4_xmod_blocks(("mid", "mid"))
+        spaces.v4_blocks("quick", "override", ("min", "mid")) + spaces.v4_xmod_blocks(("mid", "mid"))
 
 
 def run(ctx, res):
